@@ -88,13 +88,25 @@ def build(style: int, nparams: int, split: int, scope: int, var: int, carry: int
     """scope: 0 module level, 1 inside a function; var: 0 the expression is the argument of execute, 1 it is first
     assigned to a variable.  The parameter values are read from VALS, which the oracle binds to each benign value
     tuple in turn (the rewrite does not depend on them)."""
-    q = query_expr(style, nparams, split, "who" if carry % 3 else "name")
+    q = query_expr(style, nparams, split, "who" if carry % 5 in (1, 2) else "name")
     body = []
     tail_expr = "rows"
-    if carry % 3:
+    extra_module = ""
+    if carry % 5 == 3:
+        # an unrelated local that only an INNER FUNCTION reads (the clean-up pass walks every function of the file)
+        body += ["helper = 'h'", "def inner():", "    return helper"]
+        tail_expr = "(rows, inner())"
+        scope = 1
+    elif carry % 5 == 4:
+        # an assignment to a GLOBAL that a sibling function reads
+        body += ["global last", "last = name"]
+        extra_module = "def later():\n    return last\n"
+        tail_expr = "rows"
+        scope = 1
+    elif carry % 5:
         # the injected value travels through an intermediate variable that is READ AGAIN after the query
-        body.append("who = name" if carry % 3 == 1 else "who = name + '!'")
-        tail_expr = "(rows, who)" if carry % 3 == 1 else "(rows, [who for _ in range(1)])"
+        body.append("who = name" if carry % 5 == 1 else "who = name + '!'")
+        tail_expr = "(rows, who)" if carry % 5 == 1 else "(rows, [who for _ in range(1)])"
     if var % 2 == 1:
         body += ["q = " + q, "cursor.execute(q)"]
     else:
@@ -102,7 +114,7 @@ def build(style: int, nparams: int, split: int, scope: int, var: int, carry: int
     body += ["rows = cursor.fetchall()"]
     bind = ["name = get(0)", "phone = get(1)", "other = get(2)"]
     if scope % 2 == 1:
-        src = PRELUDE + "\ndef lookup(cursor, name, phone, other):\n" + "".join("    %s\n" % l for l in body) + "    return %s\n\n" % tail_expr + "\n".join(bind) + "\nprint(lookup(cursor, name, phone, other))\n"
+        src = PRELUDE + "\ndef lookup(cursor, name, phone, other):\n" + "".join("    %s\n" % l for l in body) + "    return %s\n\n" % tail_expr + "\n".join(bind) + "\n" + extra_module + "print(lookup(cursor, name, phone, other)" + (", later())\n" if extra_module else ")\n")
     else:
         src = PRELUDE + "\n".join(bind) + "\n" + "\n".join(body) + "\nprint(%s)\n" % tail_expr
     return src
